@@ -188,12 +188,12 @@ Definition touch (s : st) (a : acct) : st :=
   St (s_users s) (Z.max (s_next s) (aid a)) (s_creator s) (s_chans s) (s_ignores s).
 
 (* the commands that put the live account back when setUser refuses (DuplicateHostmask): changename restores the
-   name, identify / unidentify the logins, hostmask remove the hostmask set; hostmask add removes the mask it added.
-   set password, set secure and the capability commands do not (the mutated object stays). *)
+   name, identify / unidentify the logins, hostmask remove the hostmask set, set secure the flag; hostmask add removes
+   the mask it added.  set password and the capability commands do not (the mutated object stays). *)
 Definition rolls_back (m : mut) : bool :=
   match m with
-  | MName _ | MHostAdd _ | MHostDel _ | MHostClear | MAuthAdd _ | MAuthClear => true
-  | MPass _ | MSecure _ | MCaps _ => false
+  | MName _ | MHostAdd _ | MHostDel _ | MHostClear | MSecure _ | MAuthAdd _ | MAuthClear => true
+  | MPass _ | MCaps _ => false
   end.
 
 Definition apply_effect (s : st) (E : env) (e : effect) : st :=
